@@ -20,7 +20,7 @@ EXTENDS Naturals, Sequences, TLC, Json, IOUtils
 CONSTANTS MaxOps, MaxEnv, MaxUpd, MaxHist,
           Fix        \* BOOLEAN: model the proposed repair (an answer is dropped when a poll has been applied since its request was sent)
 
-VARIABLES tv, seen,                       \* contract
+VARIABLES tv, seen, nsv,                  \* contract
           ts,                             \* API server's state of the container
           cin, cs, cv,                    \* cache entry: present, state, version
           op,                             \* call in flight [k, st, rs, rv, late]
@@ -30,12 +30,12 @@ VARIABLES tv, seen,                       \* contract
           nops, nenv, nupd, last, hist
 
 C == INSTANCE QueueCacheContract
-qcvars == <<tv, seen>>
-vars == <<tv, seen, ts, cin, cs, cv, op, upd, dontupd, uafter, taint, ndone, nops, nenv, nupd, last, hist>>
-view == <<tv, seen, ts, cin, cs, cv, op, upd, dontupd, uafter, taint, ndone, nops, nenv, nupd>>
+qcvars == <<tv, seen, nsv>>
+vars == <<tv, seen, nsv, ts, cin, cs, cv, op, upd, dontupd, uafter, taint, ndone, nops, nenv, nupd, last, hist>>
+view == <<tv, seen, nsv, ts, cin, cs, cv, op, upd, dontupd, uafter, taint, ndone, nops, nenv, nupd>>
 
 NoOp == [k |-> "none", st |-> "none", rs |-> "", rv |-> 0, late |-> FALSE, seq |-> 0]
-NoLast == [e |-> "none", in |-> FALSE, v |-> 0, fresh |-> FALSE, late |-> FALSE]
+NoLast == [e |-> "none", in |-> FALSE, v |-> 0, s |-> "", fresh |-> FALSE, late |-> FALSE]
 H(a, x) == hist' = IF Len(hist) < MaxHist THEN Append(hist, [a |-> a, x |-> x]) ELSE hist
 
 Init == /\ C!QCInit /\ ts = "Queued"
@@ -43,7 +43,7 @@ Init == /\ C!QCInit /\ ts = "Queued"
         /\ op = NoOp /\ upd = FALSE /\ dontupd = FALSE /\ uafter = FALSE /\ taint = FALSE /\ ndone = 0
         /\ nops = 0 /\ nenv = 0 /\ nupd = 0 /\ last = NoLast /\ hist = <<>>
 
-Obs(in, v, fresh, late) == last' = [e |-> "cache", in |-> in, v |-> v, fresh |-> fresh, late |-> late]
+Obs(in, v, s, fresh, late) == last' = [e |-> "cache", in |-> in, v |-> v, s |-> s, fresh |-> fresh, late |-> late]
 NoObs(e) == last' = [NoLast EXCEPT !.e = e]
 
 SetTruth(s) == ts' = s /\ C!TruthEff
@@ -87,8 +87,8 @@ Deliver ==
     /\ IF op.st = "committed" /\ ~(Fix /\ op.seq # ndone)
        THEN /\ dontupd' = (dontupd \/ upd)
             /\ IF cin THEN cs' = op.rs /\ cv' = op.rv ELSE UNCHANGED <<cs, cv>>
-            /\ C!CacheObsEff(cin, IF cin THEN op.rv ELSE 0)
-            /\ Obs(cin, IF cin THEN op.rv ELSE 0, FALSE, op.late)
+            /\ C!CacheObsEff(cin, IF cin THEN op.rv ELSE 0, IF cin THEN op.rs ELSE "")
+            /\ Obs(cin, IF cin THEN op.rv ELSE 0, IF cin THEN op.rs ELSE "", FALSE, op.late)
        ELSE /\ UNCHANGED <<qcvars, cs, cv, dontupd>> /\ NoObs("none")
     /\ op' = NoOp
     /\ taint' = (taint \/ (op.st = "committed" /\ op.late /\ cin /\ ~Fix))
@@ -112,8 +112,8 @@ UpdEnd ==
        ELSE cin' = listed /\ cs' = (IF listed THEN ts ELSE "") /\ cv' = (IF listed THEN tv ELSE 0)
     /\ upd' = FALSE /\ dontupd' = FALSE /\ uafter' = FALSE
     /\ op' = IF op.st = "committed" /\ ~dontupd THEN [op EXCEPT !.late = TRUE] ELSE op
-    /\ C!CacheObsEff(cin', cv')
-    /\ Obs(cin', cv', ~dontupd, FALSE)
+    /\ C!CacheObsEff(cin', cv', cs')
+    /\ Obs(cin', cv', cs', ~dontupd, FALSE)
     /\ taint' = (taint /\ dontupd)
     /\ H("updend", "")
     /\ UNCHANGED <<ts, nops, nenv, nupd>>
@@ -131,12 +131,17 @@ Next == UserCancel \/ Running \/ Complete \/ (\E k \in {"lock", "unlock", "cance
 Spec == Init /\ [][Next]_vars
 
 ContractStep == CASE last'.e = "truth" -> C!Truth
-                  [] last'.e = "cache" -> C!CacheObs(last'.in, last'.v, last'.fresh)
+                  [] last'.e = "cache" -> C!CacheObsFull(last'.in, last'.v, last'.s, last'.fresh)
                   [] OTHER -> UNCHANGED qcvars
 \* expected to FAIL: the late answer (known finding KF-C14-2)
 RefinesAll == [][ContractStep]_vars
 \* holds: everything outside that class
 Refines == [][taint \/ taint' \/ ContractStep]_vars
+\* the judged clause alone (StaleStartable), no exclusion: also expected to FAIL for the code as it is
+StrictStep == CASE last'.e = "truth" -> C!Truth
+                [] last'.e = "cache" -> C!CacheObs(last'.in, last'.v, last'.s, last'.fresh)
+                [] OTHER -> UNCHANGED qcvars
+RefinesStrictAll == [][StrictStep]_vars
 
 Emit == (Len(hist) = MaxHist) =>
           Serialize(<<[id |-> 0, steps |-> hist]>>, IOEnv.VERIF_OUT,
